@@ -11,9 +11,11 @@ import (
 	"context"
 	"encoding/json"
 	"fmt"
+	"github.com/google/certificate-transparency-go/ctpolicy"
 	"os"
 	"path/filepath"
 	"sort"
+	"strings"
 	"sync/atomic"
 	"testing/synctest"
 	"time"
@@ -235,12 +237,82 @@ func (w *World) startOp(kind string, f func(ctx context.Context)) {
 	})
 }
 
+// drainGroup: a log group of its own (no submission uses it) whose weights 2-3 concurrent SetLogWeight calls try to
+// take to zero, each for another log. SetLogWeight refuses a change that leaves fewer positive-weight logs than the
+// group's MinInclusions - a sequential model: whatever the interleaving of the calls, the calls that reported success
+// must leave at least MinInclusions positive weights behind (every order of them does, one after the other).
+type drainGroup struct {
+	g        *ctpolicy.LogGroupInfo
+	min      int
+	started  int
+	accepted atomic.Int32
+	judged   bool
+}
+
+func (w *World) drainOption() (kernel.Option, bool) {
+	if w.drain != nil && (w.drain.started >= 3 || w.drain.judged) {
+		return kernel.Option{}, false
+	}
+	return kernel.Option{Key: "weight drain", Weight: 2, Apply: func() {
+		if w.drain == nil {
+			n := 2 + w.s.T.Intn(3)
+			g := &ctpolicy.LogGroupInfo{Name: "drain", LogURLs: map[string]bool{}, LogWeights: map[string]float32{}, MinInclusions: 1 + w.s.T.Intn(n-1)}
+			for i := 0; i < n; i++ {
+				u := fmt.Sprintf("https://drain%02d.example/", i)
+				g.LogURLs[u], g.LogWeights[u] = true, 1
+			}
+			w.drain = &drainGroup{g: g, min: g.MinInclusions}
+			w.s.Logf("drain group: %d logs, MinInclusions %d", n, g.MinInclusions)
+		}
+		d := w.drain
+		u := fmt.Sprintf("https://drain%02d.example/", d.started)
+		d.started++
+		w.s.Fault("weights.drain")
+		w.startOp("drain:"+u, func(context.Context) {
+			if err := d.g.SetLogWeight(u, 0); err == nil {
+				d.accepted.Add(1)
+			}
+		})
+	}}, true
+}
+
+// judgeDrain: once every drain call has returned (driver, at quiescence).
+func (w *World) judgeDrain() {
+	d := w.drain
+	if d == nil || d.judged || d.started == 0 {
+		return
+	}
+	for _, o := range w.ops {
+		if strings.HasPrefix(o.kind, "drain:") && !o.done.Load() {
+			return
+		}
+	}
+	if d.started < 2 && w.s.FaultsOn() {
+		return // more calls may still be started
+	}
+	d.judged = true
+	positive := 0
+	for _, wt := range d.g.LogWeights {
+		if wt > 0 {
+			positive++
+		}
+	}
+	w.s.Probe(fmt.Sprintf("drain.judged.accepted=%d", d.accepted.Load()))
+	if positive < d.min {
+		w.s.Violate("weights-not-linearizable", "SetLogWeight", "%d concurrent SetLogWeight(log, 0) calls on a group of %d logs with MinInclusions %d: %d reported success, %d positive weights are left - no order of the successful calls, one after the other, ends there",
+			d.started, len(d.g.LogURLs), d.min, d.accepted.Load(), positive)
+	}
+}
+
 // sideOptions: further parties the driver may start while submissions run (fault phase only).
 func (w *World) sideOptions() []kernel.Option {
 	if w.opsActive >= 2 || len(w.ops) >= w.maxOps {
 		return nil
 	}
 	var opts []kernel.Option
+	if o, ok := w.drainOption(); ok {
+		opts = append(opts, o)
+	}
 	for _, c := range w.calls {
 		c.mu.Lock()
 		done := c.Done
@@ -395,6 +467,7 @@ func (w *World) harvestOps() {
 		w.s.Logf("%s done", o.party)
 		w.s.Probe("sideop.done")
 	}
+	w.judgeDrain()
 }
 
 // proxyList: which of the two log lists the Proxy must be working from when a call starts now: the file
